@@ -161,6 +161,22 @@ def run(rep, facts, tier):
                     'the parent buffer of the token is matched by identity' if ok else
                     '%s finds the source of a token by comparing texts: of two sources with the same text the older one is named' % short(fn), fn, t.get('at'))
     rep.floor('C17.R2 lookups of the source of a token', n_id, 1)
+    # identity names one source only if no two registry entries share a buffer: whoever registers a source checks that the buffer
+    # is not registered yet (and copies it otherwise), or registers a copy in the first place
+    n_reg = 0
+    for fn, ws in sorted(W.items()):
+        f = V(fn)
+        for w in ws:
+            if w['field'][0] != 'sources' or not w['how'].startswith('call:grow'):
+                continue
+            n_reg += 1
+            checked = any((callee_of(t) or '').startswith('arcstr::arc_str::ArcStr::ptr_eq') for g in [f] + [fx.fns[c] for c in fx.callgraph().get(fn, ())
+                          if c in fx.fns and c.startswith(fn + '::{closure')] for _, t in g.calls())
+            rep.add('C17.R2', 'C17.R2:%s:registered-buffer-is-unique' % fn, checked,
+                    'a buffer that is registered already is recognised (ptr_eq against the registry) before the new entry is made' if checked else
+                    '%s registers the buffer it is given without looking whether an entry has it already: the same Xstr submitted twice shares '
+                    'one buffer between two entries, and the identity lookup names the older one' % short(fn), fn, w['at'])
+    rep.floor('C17.R2 registrations of a source', n_reg, 1)
 
     # ---------- R2
     nt = fx.need('state::State::next_token')
